@@ -43,6 +43,14 @@ func c01Populations() []Pop {
 		{Name: "na-off-match", Exprs: []string{"*/5 * * * * * *"}, NotAfter: ip(33)},
 		{Name: "both", Exprs: []string{"*/4 * * * * * *"}, NotBefore: ip(8), NotAfter: ip(80)},
 	}})
+	add(Pop{Name: "notbefore-future-with-timezones", JCs: []JC{
+		{Name: "sgt", Exprs: []string{"5 8 * * *"}, TZ: "Asia/Singapore", NotBefore: ip(120)},
+		{Name: "ist", Exprs: []string{"35 5 * * *"}, TZ: "UTC+05:30", NotBefore: ip(200), NotAfter: ip(100000)},
+		{Name: "mst-after-first", Exprs: []string{"5 17 * * *"}, TZ: "GMT-7", NotBefore: ip(400)},
+		{Name: "nyc-sec", Exprs: []string{"*/30 * 19 * * * *"}, TZ: "America/New_York", NotBefore: ip(45)},
+	}})
+	add(Pop{Name: "notbefore-default-tz-from-config", DefaultTZ: "Asia/Singapore", JCs: []JC{
+		{Name: "a", Exprs: []string{"5 8 * * *"}, NotBefore: ip(61)}, {Name: "b", Exprs: []string{"0 9 * * *"}, NotBefore: ip(3000)}}})
 	eight := Pop{Name: "population-8-same-tick", K: 3}
 	for i, e := range []string{"*/2 * * * * * *", "*/2 * * * * * *", "*/3 * * * * * *", "*/5 * * * * * *", "* * * * *", "*/4 * * * * * *", "0/30 * * * * * *", "*/6 * * * * * *"} {
 		eight.JCs = append(eight.JCs, JC{Name: fmt.Sprintf("j%d", i), Exprs: []string{e}})
